@@ -167,19 +167,18 @@ class CommitWatch(object):
         base = min(mylog) if mylog else 0
         holders = 0
         voters = [v for v in sim.voters]
+        # the entry at c as this node holds it, or (when it has compacted it away) as it was first reported committed
+        ref = mylog.get(c, self.committed.get(c))
         for v in voters:
             if v not in sim.objs:
                 continue
             lg = {i: (t, cmd) for (i, t, cmd) in sim.log_of(v)}
             vb = min(lg) if lg else 0
-            ok = True
-            if c in mylog:
-                if c in lg:
-                    ok = lg[c] == mylog[c]
-                else:
-                    ok = c < vb and sim.objs[v].raftLastApplied >= c   # compacted away = held in the snapshot
+            if c in lg:
+                # (a restarted node holds the entry in its journal although it has not re-applied it yet)
+                ok = ref is None or lg[c] == ref
             else:
-                ok = sim.objs[v].raftLastApplied >= c
+                ok = c < vb and sim.objs[v].raftLastApplied >= c       # compacted away = held in the snapshot
             if ok:
                 holders += 1
         if 2 * holders <= len(voters):
